@@ -46,7 +46,7 @@ example : good (.union [.list (.union [.int, .enum 0 ["a"]]), .dict .str (.tuple
 
 /-- a non-trivial instance: text → int, int → float, list → tuple, name → member, all fixed by the second pass -/
 example :
-    let O : Oracle := ⟨fun s => if s = "1" then some (.int 1) else some (.str s), fun s => some (.str s), fun _ => "?", fun _ => .none⟩
+    let O : Oracle := ⟨fun s => if s = "1" then some (.int 1) else some (.str s), fun s => some (.str s), fun _ => some "?", fun _ => .none⟩
     let t : Ty := .list (.union [.tuple [.float, .enum 0 ["red"]], .int, .str])
     adapt O false .none t (.list [.list [.str "1", .str "red"], .str "1", .str "x"])
       = .ok (.list [.tuple [.flt "1.0", .enum 0 "red"], .int 1, .str "x"]) ∧
@@ -64,7 +64,7 @@ Each excluded construct has a counterexample; all four are reproduced on the rea
 def O0 : Oracle where
   yaml s := if s = "1" then some (.int 1) else if s = "[1]" then some (.list [.int 1]) else some (.str s)
   loadAny s := if s = "[1]" then some (.list [.int 1]) else some (.str s)
-  bigFlt _ := "?"
+  bigFlt _ := some "?"
   intOf s := if s = "1" then some 1 else if s = "01" then some 1 else .none
 
 /-- Set: `Union[Set[float], Set[Union[int, bool]]]` on `[1, True]` — the element that made the first member
